@@ -845,7 +845,7 @@ def main(chk):
         "constructor/destructor lists of the database (-promiscuous and default visibility)",
         "only implicit (not user-declared) members are compared against the database lists, as the statement says",
     ]
-    n = chk.pick(48, 640)
+    n = chk.pick(144, 640)
     cases = []
     for k in range(n):
         cases.append({"id": k, "seed": chk.rng.getrandbits(48), "n": 12,
